@@ -12,6 +12,7 @@ import base64
 
 from ..gen import cells as G
 from ..gen import bocdags as D
+from ..translate import boccells
 
 SPEC = dict(
     manifest=dict(
@@ -28,20 +29,27 @@ SPEC = dict(
              'exotic (known finding builder-entry:exotic-root-refused, proved to be the only failure). Non-vacuity: a DAG with a leaf shared by three parents meets all hypotheses (toy hash id). Also kept: '
              'c03_emit_denotes (= c04_conforms, independent strict reader), c03_forms* (fromhex(b.hex()) = b, b64decode(b64encode(b)) = b, the base64 text of a BoC magic is never valid hex) for every byte string. '
              'Every run additionally round-trips generated DAGs through the LIBRARY alone (6 option sets x 3 input forms x 3 entry points, structural comparison of the whole DAG) and runs the Lean '
-             'parser/entry model on the library\'s emitted bytes (all three forms and entries), which must return the original root.',
-        level_note='Trusted: Lean kernel (propext, Classical.choice, Quot.sound); the hand models Model/BocEmit.lean (tied byte-for-byte in C04), Model/BocParse.lean (tied differentially in C05 and here on '
+             'parser/entry model on the library\'s emitted bytes (all three forms and entries), which must return the original root. '
+             'TIE TO THE SOURCE, parser half: c03_src_parser / c03_roundtrip_src - Boc.deserialize, deserialize_cell and deserialize_boc_header are regenerated from deserialize.py on every run '
+             '(harness/translate/pyloops.py, pybytes.py) and proved equal, for all byte lists, to Model/BocParse.lean (C05: c05_src_header, c05_src_deserialize_cell, c05_src_deserialize); hence the round trip '
+             'holds with the regenerated parser in place of the hand model (cell constructor and Boc.__init__ stay hand models). A change of any line of those functions breaks a proof obligation; the check '
+             'then round-trips boundary DAGs (every data length around the byte boundaries, 1-4 references, exotic cells) first.',
+        level_note='Trusted: Lean kernel (propext, Classical.choice, Quot.sound); the hand models Model/BocEmit.lean (tied byte-for-byte in C04), Model/BocParse.lean (header parser, cell reader and the loops of deserialize: proved equal to the functions regenerated from the source, translator harness/translate/pyloops.py + pybytes.py trusted and validated against CPython on every change; Boc.__init__: tied differentially in C05 and here on '
                    'every emitted bag <= 1500 bytes), Model/BocForms.lean (bocinput correspondence), Model/BocEntry.lean (bocone correspondence) and Model/Cell.lean (constructor, C01/C02); '
                    'base64/binascii/bytes.fromhex behave as modelled; SHA-256 abstract (arbitrary H) with the local NoCollision hypothesis; bounds 2^32 cells / 2^63 payload bytes are the format\'s. '
                    'Sampled only: model <-> library agreement (~15k model round trips + ~16k library round trips per quick run incl. 255/256/257 cells, payload 127..65536 bytes, depth-1023 chains, exotic cells, '
                    'maximal sharing; thorough: 65535/65536/70000 cells).',
-        technique='Lean 4 proof (hand models of emitter and parser composed through the spec encoder) + full round trip through the library as oracle + differential correspondence of every model',
+        technique='Lean 4 proof (hand models of emitter and parser composed through the spec encoder; the parser model is proved equal to the parser regenerated from the source on every run) '
+                  '+ full round trip through the library as oracle + differential correspondence of every model',
     ),
+    translators=[('deserialize.py deserialize_boc_header, deserialize_cell, deserialize->Generated/BocHeader.lean, BocCells.lean', boccells.regenerate)],
+    lean_targets=['TonVerif.Proofs.SrcBocDeser'],
     design_ref='DESIGN.md §6 C03',
     rule='same DAG generators as C04; each DAG x 6 option sets x {bytes, hex, base64} x {Cell, Slice, Builder}.one_from_boc (large DAGs: all option sets through Cell/bytes, one option set '
          'through all forms and entry points); distinct = distinct (dag, root, option set, form, entry); non-trivial = more than one cell or non-empty data',
     trusted_base=['Model/BocForms.lean mirrors the bytes / hex / base64 detection of Boc.__init__ by hand (bocinput correspondence)',
                   'Model/BocEmit.lean mirrors Cell.order / serialize / to_boc (correspondence in C04)',
-                  'Model/BocParse.lean mirrors deserialize_boc_header / deserialize_cell / deserialize (correspondence in C05 and, on emitted bags, here)',
+                  'Model/BocParse.lean: deserialize_boc_header / deserialize_cell / deserialize are proved equal to the functions regenerated from the source (c03_src_parser; trusted: the translator pyloops.py / pybytes.py and PyBytes.lean); Boc.__init__ by correspondence',
                   'Model/BocEntry.lean mirrors the three one_from_boc class methods, begin_parse and to_builder (bocone correspondence)'],
     assumptions=['bytes.fromhex / base64.b64decode behave as modelled', 'SHA-256 is abstract: theorems hold for every H under the local NoCollision hypothesis on the cells at hand'],
 )
@@ -224,7 +232,19 @@ def check_forms_model(ctx, rng):
             ctx.corr_broken(f'input-form model != Boc.__init__ on text {t[:80]!r}: model {o[:80]} library {lib[:80]}')
 
 
+def src_search(ctx):
+    """a source obligation of the parser broke: round-trip the boundary DAGs of C05's cell grid first"""
+    from . import C05
+    for tag, nodes, root in C05.boundary_dags(ctx.rng):
+        check_case(ctx, tag, nodes, root, forms=('bytes',), entries=('cell',))
+        if len(ctx.failures) >= 3:
+            break
+    return bool(ctx.failures)
+
+
 def run(ctx):
+    if ctx.search and src_search(ctx):
+        return
     scale = 0.7
     for tag, nodes, root, big in D.cases(ctx, scale=scale):
         if tag == 'cells65536-tree' and not ctx.thorough:
